@@ -261,7 +261,8 @@ def check_model(led, model, pdC, pdT):
 def _job(led, j):
     check_model(led, *j)
     fails = [kw for name, a, kw in getattr(led, 'calls', []) if name == 'fail' and kw.get('replay') is None and 'calc_fext' in a[0]]
-    if not fails:
+    thorough = getattr(led, 'tier', 'quick') == 'thorough'
+    if not fails and not thorough:
         return
     from .. import pyreplay, shell_oracle as O
     model, pdC, pdT = j
@@ -277,6 +278,20 @@ def _job(led, j):
         rep = {'reproduced': False, 'replay_error': repr(e)}
     for kw in fails:
         kw['replay'] = rep
+    if thorough and model in ('clpt_donnell_bcn',):
+        return          # module not built
+    if thorough:
+        name = 'compmech/conecyl (real package):%s/numeric-cross-check/calc_fext-equals-quadrature-of-the-work[pdC=%s,pdT=%s]' % (model, pdC, pdT)
+        led.bounded_item('numeric cross-check of calc_fext on the real package (thorough tier): one cone, orders (2,2,2), one load set')
+        if 'result' in rep and not (rep['result'].get('raised') or rep['result'].get('replay_error')):
+            if not rep['reproduced']:
+                led.ok(name, FE, backend='numeric(bounded)')
+            elif fails:
+                led.ok(name + '/agrees-with-the-refuted-proof-obligations', FE, backend='numeric(bounded)')
+            else:
+                led.error('%s: numeric mismatch (%s) although every proof obligation was discharged' % (name, str(rep['result'])[:300]))
+        else:
+            led.error('%s could not run: %s' % (name, str(rep)[:300]))
 
 
 def check(led):
